@@ -57,6 +57,15 @@ def run(res, args):
             j = bytes((rng.getrandbits(8) % 0xD2) for _ in range(k * 1029 + dlt))
             tailc = rng.choice([b"", b"\xd3", gen.rand_frame(rng, small=True)])
             streams.append((rng.choice([b"", gen.rand_frame(rng, small=True)]) + j + tailc, "around-max-frame-size"))
+    # very long runs of other data without 0xD3 (a long NMEA-only stretch): sizes around the powers of two from 4 KB to
+    # 64 KB, where a "bounded" buffer would cut, and a few random sizes up to 100 KB; ended by a frame, a lone 0xD3 or nothing
+    # (added after the measured miss of seed C02p: a 4096-byte cap on a non-RTCM chunk that lost the byte after it)
+    long_sizes = [p2 + d for p2 in (4096, 8192, 16384, 32768, 65536) for d in (-1, 0, 1)]
+    long_sizes += [rng.randint(3090, 100000) for _ in range(4 * mult)]
+    for n in long_sizes:
+        j = bytes((rng.getrandbits(8) % 0xD2) for _ in range(n))
+        tailc = rng.choice([b"", b"\xd3", gen.rand_frame(rng, small=True), gen.rand_frame(rng, small=True)])
+        streams.append((rng.choice([b"", gen.rand_frame(rng, small=True)]) + j + tailc, "very-long-other-data"))
     for n in (1020, 1021, 1022, 1023):
         f = gen.make_frame(gen.payload_with_type(rng, gen.rand_type(rng), n))
         streams.append((f + gen.rand_frame(rng, small=True), "around-max-frame-size"))
